@@ -185,6 +185,10 @@ func c16Check(c *Ctx, cs c16Case) {
 		c16CheckLive(c, cs)
 		return
 	}
+	if cs.Kind == "serve" {
+		c16CheckServe(c, cs)
+		return
+	}
 	if cs.Dump { // hand-written replays: only indices of the list, each once
 		sel, seen := []int{}, map[int]bool{}
 		for _, i := range cs.Sel {
@@ -303,6 +307,23 @@ func c16Check(c *Ctx, cs c16Case) {
 		keyInStream = c.Model.Call(1605, L(Bytes(key), Bytes(string(stream)))).I == 1
 		if !keyInStream && (res.Delivered || res.GetCalled || (code != 401 && code != 400)) {
 			viol("auth", implSummary, "401 (or 400), no action, no state: the key does not occur in the stream")
+		}
+	}
+	// auth_exact_key: the configured key is the exact byte string.  One that no header value can equal (white space at an
+	// end, blank) is still a configured key: everything is refused, whatever the framing (unpresentable_key_refused); and a
+	// request written at once is served only if what it presents as a whole is that very key.
+	if key != "" {
+		through := res.Delivered || res.GetCalled || (code != 401 && code != 400)
+		if c.Model.Call(1612, Bytes(key)).I != 1 {
+			rep.Count("key=unpresentable(white space at an end)")
+			if through {
+				viol("auth_exact_key", implSummary, "401 (or 400), no action, no state: the configured key "+strconv.Quote(key)+
+					" begins or ends with white space, a header value never does, so no request presents exactly this key")
+			}
+		} else if through && len(cs.Chunks) == 1 && len(stream) <= 4096 {
+			if pk := c.Model.Call(1613, Bytes(string(stream))).Str(); pk != key {
+				viol("auth_exact_key", implSummary, map[string]interface{}{"status": "401 (or 400), no action, no state", "configured": lat([]byte(key)), "presented": lat([]byte(pk))})
+			}
 		}
 	}
 	// get_no_actions
@@ -458,9 +479,11 @@ func c16CheckListen(c *Ctx, cs c16Case) {
 		nonLocal = host != "localhost" && host != "127.0.0.1"
 		refused := false
 		if port == 0 || (nonLocal && key == "") {
+			c16EnvMu.Lock()
 			os.Setenv("FZF_API_KEY", key)
 			ok, serr := fzf.VerifStartHTTP(host, port)
 			os.Unsetenv("FZF_API_KEY")
+			c16EnvMu.Unlock()
 			started = ok
 			refused = strings.Contains(serr, "FZF_API_KEY is required")
 		}
@@ -789,6 +812,11 @@ func c16Big(r *RNG, key string) []byte {
 
 func c16Gen(r *RNG) c16Case {
 	key := Pick(r, c16Keys)
+	present := key
+	if r.Chance(1, 8) { // keys that are blank, or have white space around them, and clients that present them trimmed or not
+		key = c16EnvKey(r)
+		present = c16Presented(r, key)
+	}
 	cs := c16Case{Kind: "http", Key: lat([]byte(key)), State: lat([]byte(Pick(r, c16States))), Ready: true}
 	switch r.Intn(8) {
 	case 0, 1: // the state is whatever the getHandler says: any bytes
@@ -833,7 +861,7 @@ func c16Gen(r *RNG) c16Case {
 			s = append(s, '\r', '\n')
 			break
 		}
-		s = c16Request(r, key)
+		s = c16Request(r, present)
 		if r.Chance(1, 3) {
 			s = c16Mutate(r, s)
 		}
@@ -853,7 +881,9 @@ func runC16(c *Ctx) {
 		"streams beyond the 4 KiB buffer and the 64 KiB token limit; each written whole, in pieces, at line ends, between CR and LF, or byte by byte, then closed; " +
 		"GET parameters at the boundaries of the integer types; states, bodies and list lines made of printf / JSON / HTTP / action syntax; three in eight with the real " +
 		"Terminal.dumpStatus over a generated list, selection and query as the getHandler; real fzf --listen processes (kind live) given such a list and sent 5..10 such " +
-		"requests each over TCP; plus --listen addresses with and without FZF_API_KEY. non-trivial = actions delivered, GET answered or 401; distinct by JSON of the case"
+		"requests each over TCP; listeners started by startHttpServer itself (kind serve) on local and non-local addresses under a generated FZF_API_KEY (none, " +
+		"blank-only, white space - ASCII and Unicode - in front / behind / around, ordinary, long, non-UTF-8) and sent 3..7 connections whose X-API-Key is the key, the key " +
+		"trimmed on either side, lower-cased, a prefix, another key, or missing; plus --listen addresses with and without FZF_API_KEY. non-trivial = actions delivered, GET answered or 401; distinct by JSON of the case"
 	if c.Replay != "" {
 		var cs c16Case
 		b, err := os.ReadFile(c.Replay)
@@ -882,7 +912,7 @@ func runC16(c *Ctx) {
 	}
 	// start decisions (sequential: FZF_API_KEY is process-wide)
 	for _, a := range c16Addrs {
-		for _, k := range []string{"", "k"} {
+		for _, k := range []string{"", "k", " ", "\t\n"} {
 			c16Check(c, c16Case{Kind: "listen", Addr: lat([]byte(a)), Key: k})
 		}
 	}
@@ -892,14 +922,19 @@ func runC16(c *Ctx) {
 		{Kind: "http", Key: "k", State: "{}", Ready: false, Chunks: []string{"POST / HTTP/1.1\r\nX-API-Key: k\r\n", "Content-Length: 7\r\n\r\ndown+up"}},
 	}
 	n := c.N(4000, 120000)
-	nlive := c.N(48, 1500) // real fzf processes behind real sockets, 5..10 requests each
-	parallel(c, n+len(slow)+nlive, func(i int, r *RNG) {
+	nlive := c.N(48, 1500)    // real fzf processes behind real sockets, 5..10 requests each
+	nserve := c.N(400, 12000) // listeners started by startHttpServer itself under a generated FZF_API_KEY, 3..7 connections each
+	parallel(c, n+len(slow)+nlive+nserve, func(i int, r *RNG) {
 		if i < len(slow) {
 			c16Check(c, slow[i])
 			return
 		}
 		if i < len(slow)+nlive {
 			c16Check(c, c16GenLive(r))
+			return
+		}
+		if i < len(slow)+nlive+nserve {
+			c16Check(c, c16GenServe(r))
 			return
 		}
 		c16Check(c, c16Gen(r))
